@@ -44,9 +44,11 @@ func (s *Server) GetData(req *sdcpb.GetDataRequest, stream sdcpb.DataServer_GetD
 		return status.Error(codes.InvalidArgument, "missing path attribute")
 	}
 
+	// the lock only guards the lookup, it must not be held for as long as the client takes to read the
+	// stream: a writer that queues up behind it would block every other RPC of the server
 	s.md.RLock()
-	defer s.md.RUnlock()
 	ds, ok := s.datastores[name]
+	s.md.RUnlock()
 	if !ok {
 		return status.Errorf(codes.InvalidArgument, "unknown datastore %s", name)
 	}
